@@ -23,11 +23,16 @@ def nontrivial(req, obs):
 SPEC = {
     "id": "C07",
     "gens": ["HashSites"],
-    "lean_modules": ["RsslVerif.Thm.C07"],
+    "lean_modules": ["RsslVerif.Thm.C07", "RsslVerif.Thm.C02", "RsslVerif.Thm.C15"],
     "theorems": [T + n for n in [
         "sort_perm_invariant", "collectSort_perm_invariant", "sortBy_key_perm_invariant",
         "lookup_perm_invariant", "fold_perm_invariant", "hash_sites_covered",
-        "scoped_declarations_unobserved", "no_other_nondeterminism"]],
+        "scoped_declarations_unobserved", "no_other_nondeterminism"]] + [
+        # the two non-trivial sites are proved order independent over the models of the code itself
+        "RsslVerif.Thm.C02.closure_order_independent",      # usage-analysis fixpoint (recurse) vs key iteration order
+        "RsslVerif.Thm.C02.required_order_independent",     # required_globals collect + sort
+        "RsslVerif.Thm.C15.build_scope_order_independent",  # NameMap::build vs scope-map and key-map iteration order
+    ],
     "harness": "c07",
     "custom": custom,
     "nontrivial": nontrivial,
@@ -46,7 +51,8 @@ SPEC = {
         "tools/gens/c07.py: heuristic inventory of HashMap/HashSet iteration sites (names bound to hash types per file, "
         "hash-returning functions), uses of clocks/randomness/threads/env, consumers of ScopedDeclarations.variables",
         "the classification of each site into a shape in Thm/C07.lean `classified` is a reviewed reading of the code, not "
-        "a theorem about the Rust code; the usage-analysis fixpoint shape is proved in C02 (close_is_reachability)",
+        "a theorem about the Rust code; for the usage-analysis fixpoint and NameMap::build the order independence is a "
+        "theorem over the C02 / C15 models (which are tied to the code by their own correspondence runs)",
         "Rust's sort/sort_by return a sorted permutation; HashMap = finite map with unspecified iteration order",
     ],
     "assumptions": ["single-threaded safe Rust has no other source of nondeterminism than hash iteration order"],
